@@ -15,6 +15,8 @@ def value_corpus(F, tier, name):
     recs += gen.g_beyond_range(F, rng, 1 if q else 4)[:: 2 if q else 1]
     recs += gen.g_every_decade(F, rng, 5 if q else 1, 1 if q else 2)
     recs += gen.g_int_ties(F, rng, 40 if q else 800)
+    recs += gen.g_carry(F, rng, tier)
+    recs += gen.g_grid(F, rng, tier)
     recs += gen.g_extremes(F, rng, big=20000 if q else 1000000)
     recs += gen.g_runs(F, rng, 80 if q else 3000)
     return gen.normalise(gen.dedup(recs))
@@ -364,6 +366,20 @@ def c03(tier):
         if x != x or x in (float("inf"), 0.0):
             continue
         floats.append({"fmt": "f64", "bits": core.limbs(struct.unpack("<Q", struct.pack("<d", x))[0]), "only": "shortest"})
+    # the floats nearest d x 10^q for every digit d and every decimal exponent q of each format, and short f32 decimals
+    for F, fmtc, qlo, qhi in ((gen.F64, "<d", -324, 309), (gen.F32, "<f", -46, 39)):
+        cands = [(d, n) for n in range(qlo, qhi) for d in range(1, 10)]
+        if F.name == "f32":
+            cands += [(rng.randrange(1, 10 ** rng.choice([2, 3, 4])), rng.randrange(-48, 36)) for _ in range(3000 if tier == "quick" else 30000)]
+        for (k, n) in cands:
+            try:
+                x = float("%de%d" % (k, n))
+                raw = struct.pack(fmtc, x)
+            except (OverflowError, ValueError):
+                continue
+            b = int.from_bytes(raw, "little")
+            if 0 < b < F.infbits:
+                floats.append({"fmt": F.name, "bits": core.limbs(b), "only": "shortest"})
     inp = os.path.join(wd, "floats.ndjson")
     core.write_ndjson(inp, floats)
     bindir = core.build_harness("std", bins=["gen_render"])
